@@ -10,7 +10,7 @@
 EXTENDS TraceBase, MsgTypes
 
 ASSUME TableConsistent
-ASSUME Len(Trace) = 4098 + 48 + 8 + 4096
+ASSUME Len(Trace) = 4098 + 48 + 8 + 4096 + 4096
 
 VARIABLES l, bad
 
@@ -48,13 +48,18 @@ OkDispatch(e) ==
 \* by exactly one week
 OkRoll(e) == e.roll /\ ConstellationOf(e.t) \in TimedConstellations /\ e.err = "" /\ e.delta_ms = 2000 /\ e.sow_delta_ms = 604800000
 
-\* Events 4155..8250: one per type 0..4095 from a fresh process whose first use of the library was eight goroutines
+\* Events 4155..8250: one per type 0..4095 as a frame whose CRC check fails: [t, crc, gm_type, stamped, rejected, panic] - it is
+\* other data whatever its type bits say (C01), so the classification by type does not apply: not typed, reported as an
+\* error, no timestamp extracted and no times attached ("only MSM types carry an extracted timestamp")
+OkCrc(e, i) == e.t = i - 4155 /\ e.crc /\ e.panic = "" /\ e.gm_type = -1 /\ e.rejected /\ ~e.stamped
+
+\* Events 8251..12346: one per type 0..4095 from a fresh process whose first use of the library was eight goroutines
 \* displaying a frame of every type at the same time: [t, conc, ok] - every one of them got a title and a display
-OkConc(e, i) == e.t = i - 4155 /\ e.conc /\ e.ok
+OkConc(e, i) == e.t = i - 8251 /\ e.conc /\ e.ok
 
 Init == l = 1 /\ bad = <<>>
 Next == /\ l <= Len(Trace)
         /\ l' = l + 1
-        /\ bad' = IF (IF l <= 4098 THEN Ok(Trace[l], l) ELSE IF l <= 4146 THEN OkDispatch(Trace[l]) ELSE IF l <= 4154 THEN OkRoll(Trace[l]) ELSE OkConc(Trace[l], l)) \/ Len(bad) >= MaxBad THEN bad ELSE Append(bad, l)
+        /\ bad' = IF (IF l <= 4098 THEN Ok(Trace[l], l) ELSE IF l <= 4146 THEN OkDispatch(Trace[l]) ELSE IF l <= 4154 THEN OkRoll(Trace[l]) ELSE IF l <= 8250 THEN OkCrc(Trace[l], l) ELSE OkConc(Trace[l], l)) \/ Len(bad) >= MaxBad THEN bad ELSE Append(bad, l)
 Rec == Note(l, bad)
 =============================================================================
